@@ -2,6 +2,7 @@ package main
 
 import (
 	"fmt"
+	"go/constant"
 	"go/token"
 	"go/types"
 	"strings"
@@ -22,10 +23,11 @@ func init() {
 	register("C19", func(c *Ctx) {
 		p := c.P
 		c.Explain = "Structural conditions of the erasure-coded broadcast decided on SSA: (nil-consistency) elements of sparse []*Unit slices (made with a length and filled by index, or nil-tested somewhere) are dereferenced only under a nil test — Engler's null-consistency rule; (leaf-agreement) the Merkle leaf bytes the validator verifies are the bytes the producer/reconstructor hashed; (unit-complete) every Unit literal sets every field the validator reads; " +
-			"(validate-order) a shard is recorded as received only after duplicate, origin, Merkle and signature checks passed, and no slice is indexed by the attacker-controlled shard index before the origin check; (root-before-unpad) the message is unpadded/returned only under recomputed root == announced root; (pad-prefix) the writer places the message at the offset binary.PutUvarint returned, matching the reader's binary.Uvarint; (pad-arith) no unsigned underflow in padding/sharding. " +
+			"(validate-order) a shard is recorded as received only after duplicate, origin, Merkle and signature checks passed, and no slice is indexed by the attacker-controlled shard index before the origin check; (root-before-unpad) the message is unpadded/returned only under recomputed root == announced root; (pad-prefix) the writer places the message at the offset binary.PutUvarint returned, matching the reader's binary.Uvarint; (pad-arith) no unsigned underflow in padding/sharding; (merkle-domains, merkle-orientation) leaf and node preimages are domain-separated by tags neither of which prefixes the other, the verifier starts from the leaf hash, puts the running hash left on even index bits and right on odd ones exactly as merkle.New pairs (i, i+1) with sibling ancestor^1, and returns true only for recomputed root == claimed root; (sign-agreement) signer and verifier build the payload from the same (root, committee, nonce) triple, all three are in the payload, and a signature is accepted only after pubKey.Verify succeeded; (rs-verify) recovered shards are returned only after Reconstruct succeeded and the parity check reported them consistent. " +
 			"Not decided: bit-exact reconstruction for all subsets (Reed–Solomon algebra)."
 		c19NilConsistency(c)
 		c19LeafAgreement(c)
+		c19Merkle(c)
 		c19UnitComplete(c)
 		c19ValidateOrder(c)
 		// root-before-unpad
@@ -330,5 +332,145 @@ func c19ValidateOrder(c *Ctx) {
 			ok, miss := everyDisjunctHas(d, []string{"^!", "ValidateShardOrigin(", "!= nil"}, []string{"^!", "Validate(", "!= nil"}, []string{".ShardIndex", " < "}, []string{"^!", ".ShardIndex", " >= "})
 			c.check(ok, "validate-order", "index by ShardIndex in "+qname(fn), p.Pos(posOf(in, fn)), "only after the origin/range check of the shard index", "a slice is indexed by the received unit's ShardIndex before that index was validated (out-of-range index ⇒ panic in the processor goroutine): "+miss)
 		})
+	}
+}
+
+// c19Merkle: producer (merkle.New) and verifier (Proof.Verify) of the shard tree agree on leaf/node domains and on
+// left/right orientation; signer and verifier of the message root build the same payload; recovered shards are returned
+// only after the Reed–Solomon parity check.
+func c19Merkle(c *Ctx) {
+	p := c.P
+	// domain separation: constant evaluation
+	mp := p.ByPath[modPath+"/consensus/propeller/merkle"]
+	if mp == nil {
+		c.und("merkle-domains", "package merkle", "", "package not found")
+		return
+	}
+	constStr := func(name string) (string, bool) {
+		o := mp.Types.Scope().Lookup(name)
+		k, ok := o.(*types.Const)
+		if !ok || k.Val().Kind() != constant.String {
+			return "", false
+		}
+		return constant.StringVal(k.Val()), true
+	}
+	lo, ok1 := constStr("leafOpenTag")
+	no, ok2 := constStr("nodeOpenTag")
+	if !ok1 || !ok2 {
+		c.und("merkle-domains", "leafOpenTag/nodeOpenTag", "", "tag constants not found")
+	} else {
+		sep := lo != "" && no != "" && !strings.HasPrefix(lo, no) && !strings.HasPrefix(no, lo)
+		c.check(sep, "merkle-domains", "leaf vs node tag", "", fmt.Sprintf("leaf preimages start with %q, node preimages with %q: neither is a prefix of the other", lo, no), "leaf and node hashes are no longer domain-separated: an interior node can be presented as a leaf (second-preimage forgery of shard data)")
+	}
+	lh := p.Func("consensus/propeller/merkle", "", "merkleLeafHash")
+	nh := p.Func("consensus/propeller/merkle", "", "merkleNodeHash")
+	ver := p.Func("consensus/propeller/merkle", "Proof", "Verify")
+	mk := p.Func("consensus/propeller/merkle", "", "New")
+	if lh == nil || nh == nil || ver == nil || mk == nil {
+		c.und("merkle-domains", "merkle functions", "", "anchor not found")
+		return
+	}
+	// copies into the preimage buffer, in order
+	copyOrder := func(f *ssa.Function) []string {
+		var out []string
+		for _, s := range sitesOf(f) {
+			if s.CalleeName() == "builtin:copy" {
+				out = append(out, term(s.Args()[1]))
+			}
+		}
+		return out
+	}
+	lc := strings.Join(copyOrder(lh), " | ")
+	c.check(strings.Contains(lc, "leafOpen") && strings.Contains(lc, "data") && strings.Contains(lc, "leafClose") && strings.Index(lc, "leafOpen") < strings.Index(lc, "data") && strings.Index(lc, "data") < strings.Index(lc, "leafClose"),
+		"merkle-domains", "merkleLeafHash preimage", p.Pos(fnPos(lh)), "leafOpen ‖ data ‖ leafClose", "leaf preimage is built as "+lc)
+	nc := strings.Join(copyOrder(nh), " | ")
+	iO, iL, iM, iR, iC := strings.Index(nc, "nodeOpen"), strings.Index(nc, "left"), strings.Index(nc, "nodeMid"), strings.Index(nc, "right"), strings.Index(nc, "nodeClose")
+	c.check(iO >= 0 && iO < iL && iL < iM && iM < iR && iR < iC, "merkle-domains", "merkleNodeHash preimage", p.Pos(fnPos(nh)), "nodeOpen ‖ left ‖ nodeMid ‖ right ‖ nodeClose", "node preimage is built as "+nc)
+	// verifier orientation
+	nOr := 0
+	for _, s := range sitesOf(ver) {
+		if s.Callee != nh {
+			continue
+		}
+		nOr++
+		d := p.mustHoldAt(s.Instr)
+		even, _ := everyDisjunctHas(d, []string{"% 2) == 0)"})
+		a0, a1 := term(s.Args()[0]), term(s.Args()[1])
+		curFirst := strings.Contains(a0, "current") && strings.Contains(a1, "Siblings")
+		sibFirst := strings.Contains(a0, "Siblings") && strings.Contains(a1, "current")
+		c.check((even && curFirst) || (!even && sibFirst), "merkle-orientation", fmt.Sprintf("Proof.Verify arm even=%v", even), p.Pos(s.Pos()), "even index ⇒ current is the left child; odd ⇒ the right child", "the verifier hashes ("+a0+", "+a1+") on the arm where the index bit is "+map[bool]string{true: "0", false: "1"}[even]+": it no longer mirrors the tree built by merkle.New")
+	}
+	c.check(nOr == 2, "merkle-orientation", "Proof.Verify arms", p.Pos(fnPos(ver)), "two node-hash arms selected by the index bit", fmt.Sprintf("%d node-hash arms found", nOr))
+	if s := findSite(ver, "merkleLeafHash"); s != nil {
+		c.check(term(s.Args()[0]) == "leaf", "merkle-orientation", "Proof.Verify leaf", p.Pos(s.Pos()), "path starts from the leaf hash of the presented data", "verification no longer starts from merkleLeafHash(leaf)")
+	} else {
+		c.viol("merkle-orientation", "Proof.Verify leaf", p.Pos(fnPos(ver)), "verification no longer starts from merkleLeafHash(leaf)")
+	}
+	for _, ret := range returnsOf(ver) {
+		d := p.boolDNF(ret.Results[0], true)
+		ok, miss := everyDisjunctHas(d, []string{"current == *root"}, []string{"*root == ", "current"})
+		c.check(ok && len(d) > 0, "merkle-orientation", "Proof.Verify result", p.Pos(posOf(ret.Ret, ver)), "true only if the recomputed root equals the claimed root", "Verify can return true without the recomputed root matching: "+miss)
+	}
+	// producer orientation
+	okPair, okSib := false, false
+	for _, s := range sitesOf(mk) {
+		if s.Callee == nh {
+			a0, a1 := term(s.Args()[0]), term(s.Args()[1])
+			okPair = strings.Contains(a1, "+ 1)]") && !strings.Contains(a0, "+ 1)]")
+		}
+	}
+	allInstrs(mk, func(in ssa.Instruction) {
+		if b, ok := in.(*ssa.BinOp); ok && b.Op == token.XOR {
+			if k, isK := b.Y.(*ssa.Const); isK && k.Value != nil && k.Int64() == 1 {
+				okSib = true
+			}
+		}
+	})
+	c.check(okPair && okSib, "merkle-orientation", "merkle.New", p.Pos(fnPos(mk)), "parent = H(layer[i], layer[i+1]); proof sibling = layer[ancestor ^ 1]", "merkle.New no longer pairs (i, i+1) / records the sibling at ancestor^1")
+	// signature payload agreement
+	bs := p.Func("consensus/propeller", "", "buildSignPayload")
+	sg := p.Func("consensus/propeller", "", "SignMessage")
+	vf := p.Func("consensus/propeller", "", "VerifyMessageSignature")
+	if bs == nil || sg == nil || vf == nil {
+		c.und("sign-agreement", "signing functions", "", "anchor not found")
+	} else {
+		for _, f := range []*ssa.Function{sg, vf} {
+			s := findSite(f, "buildSignPayload")
+			ok := s != nil && term(s.Args()[0]) == "root" && term(s.Args()[1]) == "committeeID" && term(s.Args()[2]) == "nonce"
+			c.check(ok, "sign-agreement", qname(f)+" payload", p.Pos(fnPos(f)), "payload = buildSignPayload(root, committeeID, nonce)", "signer and verifier no longer build the payload from the same (root, committee, nonce) triple")
+		}
+		srcs := strings.Join(copyOrder(bs), " | ")
+		hasNonce := false
+		for _, s := range sitesOf(bs) {
+			if strings.HasSuffix(s.CalleeName(), "PutUint64") && strings.Contains(term(s.Args()[len(s.Args())-1]), "nonce") {
+				hasNonce = true
+			}
+		}
+		c.check(strings.Contains(srcs, "root") && strings.Contains(srcs, "committeeID") && hasNonce, "sign-agreement", "buildSignPayload fields", p.Pos(fnPos(bs)), "root, committee id and nonce are all part of the signed payload", "the signed payload no longer binds root, committee id and nonce ("+srcs+")")
+		if s := findSite(vf, "Verify"); s != nil {
+			for _, ret := range returnsOf(vf) {
+				if !isNilConst(ret.Results[0]) {
+					continue
+				}
+				d := p.mustHoldAt(ret.Ret)
+				ok1, m1 := everyDisjunctHas(d, []string{"Verify(", "#0"})
+				ok2, m2 := everyDisjunctHas(d, []string{"^!", "Verify(", "#1 != nil"})
+				c.check(ok1 && ok2, "sign-agreement", "VerifyMessageSignature accepts", p.Pos(posOf(ret.Ret, vf)), "nil only if the key verified the signature without error", "a signature is accepted without a successful pubKey.Verify: "+m1+m2)
+			}
+		}
+	}
+	// Reed–Solomon: recovered shards leave RecoverData only after the parity check
+	if rd := p.Func("consensus/propeller/reedsolomon", "", "RecoverData"); rd != nil {
+		for _, ret := range returnsOf(rd) {
+			if !isNilConst(ret.Results[1]) {
+				continue
+			}
+			d := p.mustHoldAt(ret.Ret)
+			ok1, m1 := everyDisjunctHas(d, []string{"Verify(shards)#0"})
+			ok2, m2 := everyDisjunctHas(d, []string{"^!", "Reconstruct(shards) != nil"})
+			c.check(ok1 && ok2, "rs-verify", "RecoverData success", p.Pos(posOf(ret.Ret, rd)), "shards are returned only after Reconstruct succeeded and Verify reported them consistent", "recovered shards are returned without the parity verification: "+m1+m2)
+		}
+	} else {
+		c.und("rs-verify", "reedsolomon.RecoverData", "", "anchor not found")
 	}
 }
